@@ -19,6 +19,7 @@ MANIFEST = {
     "design": "§5 C04",
 }
 GEN = ["Prbs"]
+MODELS = ["OptiVerif.Model.Prbs", "OptiVerif.Gen.Prbs"]
 RULE = ("cases = (order, len, seed, split of len into resumed calls) over all 7 orders, boundary seeds "
         "{None,0,1,2^n,-1,-2^n,2^n-1,64-bit random}, lengths {1..3n, 2^n-1 for small n, random}; "
         "non-trivial = accepted request with len>=2, distinct by (order, seed mod 2^n, len, split)")
